@@ -35,8 +35,8 @@ class Rng:
 
 
 POLICIES = ["fifo", "lru", "lfu", "arc", "random", "tlru"]
-RET = ["u64", "String", "Result<u64, u64>", "std::result::Result<String, String>", "rt::Slow", "rt::Weighted"]
-RET_IS_RESULT = [False, False, True, True, False, False]
+RET = ["u64", "String", "Result<u64, u64>", "std::result::Result<String, String>", "rt::Slow", "rt::Weighted", "()"]
+RET_IS_RESULT = [False, False, True, True, False, False, False]
 WEIGHTS = [None, ("0.3", 3, 10), ("1.5", 3, 2), ("3.0", 3, 1), ("1", 1, 1)]
 # (attribute text, bytes)
 MEMS = [None, ("100", 100), ('"100"', 100), ('"1KB"', 1024), ("64", 64), ('"130"', 130)]
@@ -199,6 +199,38 @@ def build():
     fns.append(mk(len(fns), "a", "tlru", limit=4, fw=WEIGHTS[1]))
     fns.append(mk(len(fns), "g", "tlru", limit=3, fw=WEIGHTS[2]))
     fns.append(mk(len(fns), "t", "tlru", limit=3, fw=WEIGHTS[3]))
+    # ---- appended in round 6 of the seeded changes ----
+    # binary buffers that are not valid UTF-8 and differ only inside the invalid sequence (C01/C02)
+    for fl in ["g", "a"]:
+        fns.append(mk(len(fns), fl, "lru", sig=13))
+    # a receiver built afresh for every call (two receiver VALUES at one address in turn) (C02)
+    for fl in ["g", "a"]:
+        fns.append(mk(len(fns), fl, "fifo", sig=14))
+    # async cache_if functions with await points: executions of one key that overlap (C10)
+    fns.append(mk(len(fns), "a", "lru", cache_if=True, gates=2))
+    fns.append(mk(len(fns), "a", "fifo", limit=3, cache_if=True, ret=1, gates=1))
+    fns.append(mk(len(fns), "a", "lru", mem=MEMS[5], cache_if=True, ret=1, gates=1))
+    # functions WITHOUT a return type, cached for their effect (the body runs once per distinct arguments) (C03)
+    for fl in ["g", "t", "a"]:
+        fns.append(mk(len(fns), fl, "lru", ret=6))
+    fns.append(mk(len(fns), "a", "fifo", limit=3, ret=6))
+    # one label string declared in TWO kinds by one cache, and one string that is an event of one cache and a dependency
+    # of another (C12: every declared kind is registered; C13: kinds are separate namespaces)
+    fns.append(mk(len(fns), "g", "fifo", limit=3, tags=("dup1",), events=("dup1",)))
+    fns.append(mk(len(fns), "a", "lru", limit=3, events=("dup2",), deps=("dup2",)))
+    fns.append(mk(len(fns), "g", "lru", tags=("dup3",), deps=("dup3",)))
+    fns.append(mk(len(fns), "g", "fifo", limit=3, events=("xk1",)))
+    fns.append(mk(len(fns), "a", "fifo", limit=3, deps=("xk1",)))
+    fns.append(mk(len(fns), "g", "lru", limit=3, deps=("xk2",), name="named_dep_xk2"))
+    fns.append(mk(len(fns), "a", "lru", limit=3, events=("xk2",)))
+    # cache names that differ only in letter case are different names (C15)
+    fns.append(mk(len(fns), "g", "lru", limit=3, name="StatsTwin"))
+    fns.append(mk(len(fns), "a", "lru", limit=3, name="statstwin"))
+    fns.append(mk(len(fns), "g", "fifo", limit=3, name="STATSTWIN"))
+    # async invalidate_on functions whose result may not be cached, with await points (C20: a resumed call that stores
+    # nothing leaves the entry another call stored meanwhile alone)
+    fns.append(mk(len(fns), "a", "lru", limit=3, ret=2, inval_on=True, gates=1))
+    fns.append(mk(len(fns), "a", "fifo", limit=3, inval_on=True, cache_if=True, gates=1))
     return fns
 
 
@@ -247,8 +279,10 @@ SIG_PARAMS = {
     10: "rows: Vec<Vec<u32>>",
     11: "d: Option<Option<u32>>, k: u32",
     12: "z: f64, k: u32",
+    13: "bytes: Vec<u8>, k: u32",
+    14: "&self, k: u32",
 }
-SIG_X = {0: "k", 1: "a", 2: "k", 3: "0u32", 4: "a", 5: "c", 6: "b", 7: "k", 8: "part", 9: "k", 10: "rows[0][0]", 11: "k", 12: "k"}
+SIG_X = {0: "k", 1: "a", 2: "k", 3: "0u32", 4: "a", 5: "c", 6: "b", 7: "k", 8: "part", 9: "k", 10: "rows[0][0]", 11: "k", 12: "k", 13: "k", 14: "k"}
 # sig 6: x = 2j -> (1, 20 + j), x = 2j + 1 -> (12, j): "1" ++ "2j" = "12" ++ "j"
 SIG_ARGS = {0: "x", 1: "x, &format!(\"s{}\", x)", 2: "x / 2", 3: "", 4: "x, true, 'c', Some(x)", 5: "(x % 2, 7), x / 2",
             6: "if x % 2 == 0 { 1 } else { 12 }, if x % 2 == 0 { 20 + x / 2 } else { x / 2 }",
@@ -257,7 +291,9 @@ SIG_ARGS = {0: "x", 1: "x, &format!(\"s{}\", x)", 2: "x / 2", 3: "", 4: "x, true
             9: "&strs9(x).0, strs9(x).1, x / 2",
             10: "rows10(x)",
             11: "opt11(x), x / 3",
-            12: "zero12(x), x / 2"}
+            12: "zero12(x), x / 2",
+            13: "bytes13(x), x / 2",
+            14: "x / 2"}
 SIG_KEY = {0: 'format!("{:?}", x)',
            1: 'format!("{:?}|{:?}", x, format!("s{}", x).as_str())',
            2: 'format!("{:?}|{:?}", recv(x), x / 2)',
@@ -270,8 +306,10 @@ SIG_KEY = {0: 'format!("{:?}", x)',
            9: 'format!("{:?}|{:?}|{:?}", strs9(x).0.as_str(), strs9(x).1, x / 2)',
            10: 'format!("{:?}", rows10(x))',
            11: 'format!("{:?}|{:?}", opt11(x), x / 3)',
-           12: 'format!("{:?}|{:?}", zero12(x), x / 2)'}
-BODY = ["body_u64", "body_string", "body_res_u64", "body_res_string", "body_slow", "body_weighted"]
+           12: 'format!("{:?}|{:?}", zero12(x), x / 2)',
+           13: 'format!("{:?}|{:?}", bytes13(x), x / 2)',
+           14: 'format!("{:?}|{:?}", Recv { id: 20 + x % 2 }, x / 2)'}
+BODY = ["body_u64", "body_string", "body_res_u64", "body_res_string", "body_slow", "body_weighted", "body_unit"]
 
 
 def emit(fns, out):
@@ -300,6 +338,8 @@ def emit(fns, out):
     o.append("pub fn strs9(x: u32) -> (String, String) { if x % 2 == 0 { (format!(\"k{}|m\", x / 2), \"n\".to_string()) } else { (format!(\"k{}\", x / 2), \"m|n\".to_string()) } }")
     o.append("/// x = 3j -> None, 3j + 1 -> Some(None), 3j + 2 -> Some(Some(j))")
     o.append("pub fn opt11(x: u32) -> Option<Option<u32>> { match x % 3 { 0 => None, 1 => Some(None), _ => Some(Some(x / 3)) } }")
+    o.append("/// x = 2j -> [104, 105, 255], x = 2j + 1 -> [104, 105, 254]: not UTF-8, alike after a lossy decoding")
+    o.append("pub fn bytes13(x: u32) -> Vec<u8> { if x % 2 == 0 { vec![104, 105, 255] } else { vec![104, 105, 254] } }")
     o.append("/// x = 2j -> 0.0, x = 2j + 1 -> -0.0")
     o.append("pub fn zero12(x: u32) -> f64 { if x % 2 == 0 { 0.0 } else { -0.0 } }")
     for f in fns:
@@ -319,7 +359,10 @@ def emit(fns, out):
         if f["early"]:
             body = "if %s %% 2 == 1 { return %s; } %s" % (SIG_X[f["sig"]], body, body)
         fn = "pub %sfn f%d(%s) -> %s { %s }" % ("async " if is_async else "", i, SIG_PARAMS[f["sig"]], ret, body)
-        if f["sig"] == 2:
+        if f["ret"] == 6:
+            # no return type at all (`ReturnType::Default`), the way such a function is written
+            fn = "pub %sfn f%d(%s) { %s; }" % ("async " if is_async else "", i, SIG_PARAMS[f["sig"]], body)
+        if f["sig"] in (2, 14):
             o.append("impl Recv {\n    %s\n    %s\n}" % (head, fn))
         elif f["sig"] == 7:
             o.append("impl Half {\n    %s\n    %s\n}" % (head, fn))
@@ -332,7 +375,8 @@ def emit(fns, out):
     for f in fns:
         i = f["idx"]
         args = SIG_ARGS[f["sig"]]
-        callee = ("recv(x).f%d(%s)" if f["sig"] == 2 else "half(x).f%d(%s)" if f["sig"] == 7 else "f%d(%s)") % (i, args)
+        callee = ("recv(x).f%d(%s)" if f["sig"] == 2 else "half(x).f%d(%s)" if f["sig"] == 7
+                  else "Recv { id: 20 + x %% 2 }.f%d(%s)" if f["sig"] == 14 else "f%d(%s)") % (i, args)
         if f["flavour"] == "a":
             callee = "rt::block_on(%s)" % callee
         o.append("        %d => rt::Ret::from_val(&%s)," % (i, callee))
